@@ -79,13 +79,6 @@ def bundleToSexp (b : Bundle String) : Sexp :=
     .list (.atom "entry" :: b.entry.map (decToSexp names)),
     .list (.atom "errors" :: b.errors.map errToSexp)]
 
-/-- H5: no call site inside a required module has a local `require` in scope (decidable) -/
-def h5 (G : Graph String) : Bool :=
-  G.all fun (_, m) =>
-    match m with
-    | .lua sites _ => sites.all fun s => !s.shadowed
-    | _ => true
-
 def handle (op : String) (args : List String) : String :=
   match op, Sexp.parseArgs args with
   | "inline", some [g, .list sites] =>
@@ -94,7 +87,7 @@ def handle (op : String) (args : List String) : String :=
     | _, _ => "bad-request"
   | "h5", some [g] =>
     match graphOf? g with
-    | some G => toString (h5 G)
+    | some G => toString (H5 G)
     | none => "bad-request"
   | "assemble", some [m, .list mods, entry] =>
     let mods? := mods.mapM fun e =>
